@@ -666,21 +666,20 @@ where
 {
     fn decode<D: Decoder + ?Sized>(
         decoder: &mut D,
-        _plugin: &Plugin,
-        _session: &mut Session,
+        plugin: &Plugin,
+        session: &mut Session,
     ) -> io::Result<Self> {
-        use bitvec::{mem::bits_of, vec::BitVec};
-        use std::io::Write;
+        use bitvec::mem::bits_of;
 
+        // mirror of `Encode for BitVec`: the bit length, then every storage
+        // element of the raw slice encoded as a `T`
         let len = decoder.read_usize()?;
-        let number_of_bytes = len.div_ceil(bits_of::<u8>());
-        let byte_vec = decoder.read_raw_bytes(number_of_bytes)?;
-        let mut vec = BitVec::new(); // Write will resize as needed.
-        let written = vec.write(byte_vec.as_slice())?;
-        assert!(
-            written == number_of_bytes,
-            "Should write the same number of bytes ({written}) as had been stored ({number_of_bytes})"
-        );
+        let number_of_elements = len.div_ceil(bits_of::<T>());
+        let mut raw = Vec::with_capacity(number_of_elements);
+        for _ in 0..number_of_elements {
+            raw.push(T::decode(decoder, plugin, session)?);
+        }
+        let mut vec = Self::from_vec(raw);
         vec.truncate(len); // Ensure trailing bits aren't added.
         Ok(vec)
     }
